@@ -199,6 +199,25 @@ def oracle_scaling(case):
         fails.append({'what': 'quantile does not scale by c', 'c': c, 'original': q, 'rescaled': qb})
     if not relv(ca, cb, 0, 1e-9):
         fails.append({'what': 'cdf(c t) of the rescaled model differs from cdf(t)', 'c': c, 'original': ca.tolist(), 'rescaled': cb.tolist()})
+    # the same law on objects that were first asked for the distribution function beyond their last change point (the default
+    # horizon of the moments is searched afterwards: it must be that of the whole demography, at every scale)
+    bs_ = sorted({float(t) for dd in (spec.get('pop_sizes') or {}).values() if isinstance(dd, dict) for t in dd} |
+                 {float(t) for dd in (spec.get('migration_rates') or {}).values() if isinstance(dd, dict) for t in dd})
+    if len(bs_) > 1 and spec.get('end_time') is None:
+        a2, b2 = build.coalescent(spec), build.coalescent(scale_spec(spec, c))
+        far = bs_[-1] * 1.5 + 1.0
+        a2.tree_height.cdf(np.array([far]))
+        b2.tree_height.cdf(np.array([far * c]))
+        h2 = build.capture()
+        for dist in ('tree_height', 'total_branch_length'):
+            x2, y2 = getattr(a2, dist).moment(1, center=False), getattr(b2, dist).moment(1, center=False)
+            if noisy(h2):
+                break
+            n += 1
+            x, y = vals[f'{dist}.mean']
+            if not (rel(x2 * c, y2, 1e-9) and rel(x2, x, 1e-9) and rel(y2, y, 1e-9)):
+                fails.append({'what': 'mean asked after the distribution function beyond the last change point: scaling law / value of a fresh object broken',
+                              'statistic': dist, 'c': c, 'original_after_cdf': x2, 'rescaled_after_cdf': y2, 'original_fresh': x, 'rescaled_fresh': y})
     if case.get('regularize_check'):
         r0 = build.coalescent(spec, regularize=False)
         for dist in ('tree_height', 'total_branch_length'):
